@@ -30,9 +30,15 @@ import (
 
 const (
 	repo  = "/repo"
-	verif = "/verif"
 	shimP = "github.com/XiaoMi/Gaea/verifshim/"
 )
+
+var verif = func() string {
+	if r := os.Getenv("VERIF_ROOT"); r != "" {
+		return r
+	}
+	return "/verif"
+}()
 
 // mutDir, if set, holds mutated copies of repo files: a deliberate property-breaking change
 // is checked without touching /repo.
